@@ -91,8 +91,8 @@ def run(chk, replay=None):
         tour = ride_loops(raw)
         gen["tour_transitions"] = len(raw)
         gen["tour_behaviours"] = len(tour)
-        sim, st3 = vf.tlc_simulate("AtmGen.tla", "AtmGenSim.cfg", num=400 if quick else 20000, depth=8 if quick else 12,
-                                   seed=chk.seed, workers=WORKERS)
+        sim, st3 = vf.tlc_simulate("AtmGen.tla", "AtmGenSim.cfg", num=400 if quick else 2500, depth=8 if quick else 12,
+                                   seed=chk.seed, workers=WORKERS, steps_key=None)
         for b in sim:
             b.pop("loop", None)
         sim = vf.maximal_behaviours(sim)
